@@ -79,6 +79,12 @@ func (fc *FnCtx) doCall(st *State, c *ssa.CallCommon, in ssa.Instruction, site s
 	}
 	// 5. unknown external function: results havocked
 	fc.notes.Havocked[name] = true
+	if touchesBuffer(callee) {
+		// an unspecified operation on the buffer or the encoder: the ghost buffer model is lost
+		for _, hv := range []HeapVar{bufLenVar, bufItemsVar, bufEndVar} {
+			st.Heap[hv.Name] = fc.S.Fresh(hv.Name+".ext", hv.Sort)
+		}
+	}
 	for i, a := range c.Args {
 		if _, isPtr := a.Type().Underlying().(*types.Pointer); isPtr {
 			fc.havocPointee(st, a, args[i])
@@ -157,6 +163,12 @@ func (fc *FnCtx) invoke(st *State, c *ssa.CallCommon, in ssa.Instruction, site s
 	}
 	it := c.Value.Type()
 	mname := c.Method.Name()
+	// the msgpack encoder is reached through an embedded interface of codec.Encoder
+	if n, ok := types.Unalias(it).(*types.Named); ok && n.Obj().Pkg() != nil && n.Obj().Pkg().Path() == "github.com/ugorji/go/codec" && mname == "Encode" {
+		if v, ok := fc.bufCall(st, "github.com/ugorji/go/codec.(*Encoder).Encode", args, resTypes); ok {
+			return v
+		}
+	}
 	if isNoopIface(it) {
 		fc.notes.Skipped[it.String()+"."+mname] = true
 		return fc.freshResults(st, resTypes, "noop."+mname, true)
@@ -214,6 +226,12 @@ func (fc *FnCtx) applyContract(st *State, ct *Contract, callee *ssa.Function, si
 	}
 	// requires
 	for _, cl := range ct.Requires {
+		if strings.HasPrefix(cl.Label, "env-") {
+			// an assumption about the environment (e.g. what the network delivers): assumed by
+			// the callee, not established by any caller; listed in the evidence
+			fc.notes.Assumed["environment assumption of "+ct.Key+" ["+cl.Label+"]: "+cl.Src] = true
+			continue
+		}
 		t := fc.evalClause(env, cl)
 		fc.oblige(st, "call.requires", ct.Key+"."+cl.Label, site, t, cl.Src)
 		fc.S.Assume(Implies(st.PC, t), "precondition established")
